@@ -9,6 +9,7 @@ fn dispatch(ctx: &Ctx) {
     match ctx.prop.as_str() {
         "C01" => vcore::c01::run(ctx),
         "C02" => vcore::c02::run(ctx),
+        "C03" => vcore::c03::run(ctx),
         "C04" => vcore::c04::run(ctx),
         "C05" => vcore::c05::run(ctx),
         "C07" => vcore::c07::run(ctx),
